@@ -55,6 +55,23 @@ def gen_history(r, tier):
     return ops
 
 
+def wide_table_history(r, n):
+    """a long-lived process that has been configured to ignore something and then diffs documents with MANY distinct
+    dictionary keys (widget state keyed by model id, per-key metadata): every distinct path it looks up may be remembered
+    in the process-wide tables, which must not disturb what was configured -- whatever their size becomes"""
+    hidden = r.choice([[1], [0], [0, 1], [1, 4]])                   # outputs / sources / both / outputs+ids hidden (metadata stays shown: the wide mapping lives there)
+    ops = [{'kind': 'targets', 'shown': [i not in hidden for i in range(6)]}]
+    def wide(tag):
+        state = {'model-%05d' % i: {'model_name': 'IntSliderModel', 'state': {'value': (i if tag == 'a' else i + 1)}} for i in range(n)}
+        return {'cells': [{'cell_type': 'markdown', 'metadata': {}, 'source': 'widgets %s\n' % tag}],
+                'metadata': {'widgets': {'application/vnd.jupyter.widget-state+json': {'state': state, 'version_major': 2, 'version_minor': 0}}},
+                'nbformat': 4, 'nbformat_minor': 4}
+    ops.append({'kind': 'diff', 'a': wide('a'), 'b': wide('b')})
+    a, b = everywhere_pair(r)
+    ops.append({'kind': 'diff', 'a': a, 'b': b})
+    return ops
+
+
 def versions_history(r):
     """successive requests about versions of one notebook (a long-running server): the same cell ids come back
     with other outputs / sources, so anything remembered per id, per position or per object from an earlier
@@ -268,6 +285,7 @@ def run(tier, seed):
             histories.append([{'kind': 'targets', 'shown': [i not in hidden for i in range(6)]}, lift, {'kind': 'diff', 'a': a, 'b': bnb}])
     for _ in range(24 if tier == 'quick' else 300): histories.append(versions_history(r))
     for _ in range(9 if tier == 'quick' else 90): histories.append(failing_call_history(r))
+    for n in ([1500, 4000] if tier == 'quick' else [1100, 1500, 2500, 4000, 9000, 20000]): histories.append(wide_table_history(r, n))
     res = core.run_impl([{'op': 'history', 'ops': h} for h in histories], shards=14, isolate=True)
     states = []; evals = 0; nontrivial = set(); hist = {}
     fresh_tasks = []; fresh_idx = []
